@@ -1,11 +1,13 @@
 #!/usr/bin/env python3
 """confirm a sub-agent's seeded change in ITS scratch worktree (never /repo):
-   vx/confirm_seed.py <id> <crate-dir>:<test-file>[,<crate-dir>:<test-file>...]
+   vx/confirm_seed.py <id> <crate-dir>:<test-file>[:example][,<crate-dir>:<test-file>...]
+(`:example` = the demo is a cargo example - binary-only crates have no integration tests - run with `cargo run --example`)
 pristine -> demo passes; patch applies; with patch demo fails and the whole existing suite passes.
 writes /tmp/seed/<id>-out/confirm.json"""
 import sys, os, subprocess, json, shutil, re
 sid = sys.argv[1]
-demos = [x.split(':') for x in sys.argv[2].split(',')]
+demos = [(x.split(':') + ['tests'])[:3] for x in sys.argv[2].split(',')]
+demos = [(c, f, 'examples' if k.startswith('example') else 'tests') for c, f, k in demos]
 wt = '/tmp/seed/' + sid
 out = '/tmp/seed/' + sid + '-out'
 def sh(cmd, **kw):
@@ -15,18 +17,18 @@ sh('git checkout -- . && git clean -fdq -e target')
 res['patch_applies'] = sh('git apply --check %s/patch.diff' % out).returncode == 0
 res['what_i_ran'].append('git apply --check patch.diff (scratch worktree of /repo at HEAD %s)' % sh('git rev-parse --short HEAD').stdout.strip())
 def place():
-    for crate, f in demos:
-        os.makedirs(os.path.join(wt, crate, 'tests'), exist_ok=True)
-        shutil.copy(os.path.join(out, 'demo', f), os.path.join(wt, crate, 'tests', f))
+    for crate, f, kind in demos:
+        os.makedirs(os.path.join(wt, crate, kind), exist_ok=True)
+        shutil.copy(os.path.join(out, 'demo', f), os.path.join(wt, crate, kind, f))
 def pkg(crate):
     t = open(os.path.join(wt, crate, 'Cargo.toml')).read()
     return re.search(r'name\s*=\s*"([^"]+)"', t).group(1)
 def run_demos():
     ok = True; logs = []
-    for crate, f in demos:
-        cmd = 'cargo test -p %s --test %s --offline' % (pkg(crate), f[:-3])
+    for crate, f, kind in demos:
+        cmd = ('cargo test -p %s --test %s --offline' if kind == 'tests' else 'cargo run -p %s --example %s --offline') % (pkg(crate), f[:-3])
         p = sh(cmd + ' 2>&1')
-        logs.append(cmd + ' -> rc=%d :: %s' % (p.returncode, ' | '.join(l for l in p.stdout.split('\n') if l.startswith('test result'))))
+        logs.append(cmd + ' -> rc=%d :: %s' % (p.returncode, ' | '.join(l for l in p.stdout.split('\n') if l.startswith('test result') or 'VIOLATION' in l or l.startswith('C19 demo'))))
         ok = ok and p.returncode == 0
     return ok, logs
 place()
@@ -35,8 +37,10 @@ res['demo_passes_without_change'] = ok; res['what_i_ran'] += ['(pristine) ' + l 
 sh('git apply %s/patch.diff' % out)
 ok, logs = run_demos()
 res['demo_fails_with_change'] = not ok; res['what_i_ran'] += ['(with change) ' + l for l in logs]
-for crate, f in demos:
-    os.remove(os.path.join(wt, crate, 'tests', f))
+for crate, f, kind in demos:
+    os.remove(os.path.join(wt, crate, kind, f))
+    if kind == 'examples' and not os.listdir(os.path.join(wt, crate, kind)):
+        os.rmdir(os.path.join(wt, crate, kind))
 p = sh('cargo test --workspace --no-fail-fast --offline 2>&1')
 passed = sum(int(x) for x in re.findall(r'test result: \w+\. (\d+) passed', p.stdout))
 failed = sum(int(x) for x in re.findall(r'test result: \w+\. \d+ passed; (\d+) failed', p.stdout))
